@@ -119,13 +119,14 @@ def run_config(cfg, bd, cases, rnd):
         try:
             tgt = T[c.target]
             assert ch.call(caller, mi["set_t"] + bytes(12) + bytes.fromhex(tgt[2:])).ok
+            extra = []
             if c.prep:
                 p = ch.call(caller, mi[c.prep[1]] + c.prep[2])
-                assert p.ok, "preparation call failed"
+                if not p.ok:
+                    extra.append(f"the first {c.prep[1]} with a fresh salt reverted (data {p.out.hex()})")
             bal0 = ch.evm.get_balance(tgt)
             r = ch.call(caller, mi[c.fn] + c.args, value=c.value)
             obs = {"ok": r.ok, "out": r.out}
-            extra = []
             addr = None
             if r.ok and c.fn[0] == "c" and len(r.out) == 32:
                 addr = "0x" + r.out[12:].hex()
